@@ -168,6 +168,15 @@ def r07_5(ck, F):
             agg_bb = [bb for bb, i, rv in x.aggregates(PORT_EVT, variant)][0]
             after = bool(aw) and aw[0].get("ready_bb") is not None and agg_bb in x.reach([aw[0]["ready_bb"]])
             ok = first_is_oneshot and loops_ok and after
+            # the notification cannot be lost to a full dispatcher queue: it is handed over with an awaited
+            # mpsc::Sender::send (which waits for a slot), not with try_send whose Full result would be dropped
+            queued = [a for a in aw[1:] if "mpsc" in (a.get("fut_fn") or a.get("fut_ty") or "") and "send" in (a.get("fut_fn") or a.get("fut_ty") or "").lower()]
+            tries = [bb for bb, t in x.calls() if (callee(t) or "").endswith("::try_send")]
+            ck.expect(bool(queued) and not tries, f"{fn.split('::')[-2]}::new#drop-task-waits-for-slot",
+                      f"{variant} is enqueued with an awaited send",
+                      f"{fn}: the drop notification {variant} is enqueued without waiting for a queue slot (try_send): when the "
+                      f"dispatcher's event queue is full it is silently lost and the peer's request / port never resolves",
+                      x.loc(agg_bb))
         ck.expect(ok, f"{fn.split('::')[-2]}::new#drop-task", f"one straight-line task: await oneshot, then enqueue {variant}",
                   f"{fn}: drop notification task missing or not straight-line", fam[0].loc(0))
     he = F.main_body(HANDLE_EVENT)
